@@ -54,6 +54,17 @@ class C06(Prop):
             yield dict(entry="birkhoff_von_neumann", family=kind, X=[[float(x) for x in row] for row in X], itype=(kind == "scaled" and i % 4 == 0))
         for c in self.regular01(rng, tier):
             yield c
+        # the top and the bottom of the float range: small-integer combinations of permutation matrices scaled by an exact power of two such that the
+        # common line sum lies just below the largest finite double (the TOTAL of all entries is then not representable) or in the subnormals
+        for i in range(24 if tier == "quick" else 300):
+            n = rng.randint(2, 6); k = rng.randint(1, 4)
+            X = [[0] * n for _ in range(n)]
+            for _ in range(k):
+                p = rng.sample(range(n), n); w = rng.randint(1, 3)
+                for r in range(n): X[r][p[r]] += w
+            line = sum(X[0]); bits = line.bit_length()
+            e = [1024 - bits, 1023 - bits, -1074, -1060, 1000, -1022][i % 6]
+            yield dict(entry="birkhoff_von_neumann", family="float_range_edge", X=[[float(Fraction(x) * Fraction(2) ** e) for x in row] for row in X])
 
     def regular01(self, rng, tier):
         # 0/1 matrices with exactly k ones in every row and column (k disjoint permutations of weight 1): common row sum k
